@@ -256,16 +256,14 @@ func (serviceCore *ServiceCore) Init() error {
 		serviceCore.NodeInfo.KeyPairs = append(serviceCore.NodeInfo.KeyPairs, keyPair)
 	}
 
-	// load clients
-	err = serviceCore.loadClients()
-	if err != nil {
-		return err
+	// load clients and acls; a missing clients file must not prevent the acls from being loaded
+	errClients := serviceCore.loadClients()
+	errAcls := serviceCore.loadAcls()
+	if errClients != nil {
+		return errClients
 	}
-
-	// load acls
-	err = serviceCore.loadAcls()
-	if err != nil {
-		return err
+	if errAcls != nil {
+		return errAcls
 	}
 
 	return nil
